@@ -65,7 +65,9 @@ for idx in ("last", "first", "middle"):
 LOADERS = ("c", "py")
 
 
-ARG2 = [7]  # second payload argument; varied per case (7, 7.0, "7", b"7") by run_shard
+ARG2 = [7]  # second payload argument; varied per injection by run_shard
+ARG_SEQUENCE = (7, 8.0, "7", 7.0, 8, b"7", 10.0, 10, 11, 11.0, "8.0", 2**40, float(2**40), 12.0, 12)
+_ARG_CYCLE = [0]
 
 
 def apply_mode(p, mode, kw):
@@ -358,8 +360,11 @@ def run_shard(spec, seed):
             res.note(data, False, klass=["base-rejected", kind])
             return None
         for mi, (mode, kw) in enumerate(MODES):
-            # numerically equal arguments of different types in successive injections
-            ARG2[0] = (7, 7.0, "7", 7, b"7")[(mi + len(data)) % 5]
+            # numerically equal arguments of different types in successive injections, in both
+            # orders (int before float and float before int) within every process
+            if mode in ("insert_python", "append_python"):
+                _ARG_CYCLE[0] += 1
+            ARG2[0] = ARG_SEQUENCE[_ARG_CYCLE[0] % len(ARG_SEQUENCE)]
             for loader in LOADERS:
                 if mode == "function_call" and loader == "py":
                     res.excluded["KF-C08-1 function-call helper under pure-Python unpickler"] += 1
